@@ -344,6 +344,14 @@ Block::invalidate_transfer(BlockTransfer* transfer) {
     m_notStalled--;
   }
 
+  // A transfer marked dissimilar was handed over to the block, the
+  // request list replaced it with a dummy and will never release it.
+  if (transfer->is_erased()) {
+    transfer->set_peer_info(NULL);
+    delete transfer;
+    return;
+  }
+
   if (transfer->peer_info() == NULL) {
     delete transfer;
     return; // Consider if this should be an exception.
